@@ -203,9 +203,11 @@ class ScopeMetrics:
         *args: Any,
         exception: BaseException | None = None,
     ) -> None:
+        # logging applies %-formatting only when there are arguments, the prefix has to stay literal
+        prefix: str = self._logger_prefix.replace("%", "%%") if args else self._logger_prefix
         self._logger.log(
             level,
-            f"{self._logger_prefix} {message}",
+            f"{prefix} {message}",
             *args,
             exc_info=exception,
         )
